@@ -322,6 +322,12 @@ func parseMember(member string) (Member, error) {
 			if err != nil {
 				return newInvalidMember(), err
 			}
+			if p.key == "" {
+				// An empty property ("k=v;;p") is tolerated but not kept: it
+				// has no serialised form, so keeping it would make the parsed
+				// Baggage differ from its own re-parsed String().
+				continue
+			}
 			props = append(props, p)
 		}
 	}
